@@ -1106,6 +1106,51 @@ example :
     clear cfgEx [[], [a, b], [a', b]] = ⟨4, 0, 1, 1/2 + 1/4 + 1/2 + 1/4⟩ ∧
     clear cfgEx [[a', b], [a', b']] = ⟨2, 0, 1, 1/2 + 1/4⟩ := by decide +kernel
 
+/-- with an empty previous frame every result is judged by its own test alone: no carry-over, no switch -/
+theorem frameStep_after_empty (cfg : Cfg) (cur : List Res) :
+    (frameStep cfg [] cur).sw = 0 ∧
+    frameStep cfg [] cur = accSum (cur.map (fun c =>
+      match labelThreshold cfg (keyLabel c) with
+      | none => Acc.zero
+      | some t => if isTp cfg t c then ⟨c.w, 0, 0, c.value⟩ else ⟨0, 1, 0, 0⟩)) := by
+  have h : ∀ c, resStep cfg [] c = (match labelThreshold cfg (keyLabel c) with
+      | none => Acc.zero
+      | some t => if isTp cfg t c then ⟨c.w, 0, 0, c.value⟩ else ⟨0, 1, 0, 0⟩) := by
+    intro c
+    unfold resStep
+    cases labelThreshold cfg (keyLabel c) with
+    | none => rfl
+    | some t => simp [scan]
+  have h2 : frameStep cfg [] cur = accSum (cur.map (fun c =>
+      match labelThreshold cfg (keyLabel c) with
+      | none => Acc.zero
+      | some t => if isTp cfg t c then ⟨c.w, 0, 0, c.value⟩ else ⟨0, 1, 0, 0⟩)) := by
+    rw [frameStep_eq, List.map_congr_left (fun c _ => h c)]
+  refine ⟨?_, h2⟩
+  rw [h2, accSum_sw]
+  apply List.sum_eq_zero
+  intro x hx
+  simp only [List.mem_map] at hx
+  obtain ⟨a, ⟨c, _, rfl⟩, rfl⟩ := hx
+  cases labelThreshold cfg (keyLabel c) with
+  | none => rfl
+  | some t => dsimp only; split <;> rfl
+
+/-- **an empty frame in the middle of a history cuts it**: the frame after it books no switch and no carry-over, and the
+totals are those of the two parts -/
+theorem empty_frame_cuts_history (cfg : Cfg) (pre post : List (List Res)) (cur : List Res) :
+    clear cfg (pre ++ [] :: cur :: post) =
+      ((clear cfg (pre ++ [[]])).add (frameStep cfg [] cur)).add (clear cfg (cur :: post)) ∧
+    (frameStep cfg [] cur).sw = 0 := by
+  refine ⟨?_, (frameStep_after_empty cfg cur).1⟩
+  rw [history_split cfg pre [] (cur :: post)]
+  have : clear cfg ([] :: cur :: post) = (frameStep cfg [] cur).add (clear cfg (cur :: post)) := by
+    have := history_split cfg [[]] cur post
+    simp only [List.cons_append, List.nil_append] at this
+    rw [this]
+    simp [clear, clearLoop]
+  rw [this, Acc.add_assoc]
+
 end LocalInTime
 
 end PEval.C05
